@@ -63,10 +63,17 @@ def scenarios(run):
     return out
 
 
+def extra_stage(run):
+    """the CONTINUATION backlog: frame-buffer model against the real FrameBuffer, and the bound observed on the real buffer"""
+    from harness import fb_corr
+    return fb_corr.stage(run, 25 if run.tier == 'quick' else 400, 'bounded')
+
+
 SPEC = dict(parts=PARTS, weights=WEIGHTS, rf_weights=RF, n_quick=260, n_thorough=4000, n_ops=40, oracle=oracle, scenarios=scenarios,
+            extra_stage=extra_stage,
             nontrivial=lambda p: max(len(x[4][1]) for x in p['parts']) >= 1,
             rule='long peer frame sequences opening, closing, resetting and referencing streams (thorough tier: thousands of programs of 40 operations; the closed-stream '
-                 'cap itself is covered by the theorem, the directed programs place header lists at MAX_HEADER_LIST_SIZE - 1 / exactly / + 1); compared with the model '
+                 'cap itself is covered by the theorem; the CONTINUATION backlog by the frame-buffer model compared with the real FrameBuffer on floods of 63..1200 CONTINUATION frames, the directed programs place header lists at MAX_HEADER_LIST_SIZE - 1 / exactly / + 1); compared with the model '
                  'on result, output, stream tables, ids and limits; non-trivial = at least one stream reached the closed-stream memory',
             extra_obligations=1)
 
@@ -76,4 +83,12 @@ def check(run):
 
 
 def replay(run, path):
+    import json
+    obj = json.load(open(path))
+    if 'framebuffer_case' in obj:
+        from harness import fb_corr
+        bad = fb_corr.replay_case('bounded', obj['framebuffer_case'])
+        if bad:
+            run.violation(obj)
+        return run.finish('proof', {'replayed': path, 'still_fails': bool(bad)})
     return _conn.conn_replay(run, path, oracle)
